@@ -1,12 +1,12 @@
 \* two sessions: stale messages of the first session (old sequence numbers, the sequence-less AddBlockRsp),
-\* restart; local <=1, remote <=4, <=1 fault, one stop request
+\* restart; local <=1, remote <=3, <=1 fault, one stop request
 SPECIFICATION Spec
 CONSTANTS
   MaxL = 1
-  MaxR = 4
+  MaxR = 3
   NPeers = 2
   ChunkSize = 2
-  HashReq = 3
+  HashReq = 2
   MaxTasks = 2
   MaxPendingConn = 2
   MaxFail = 2
